@@ -124,6 +124,7 @@ func sloppyLen(m dsl.Matcher) {
 //doc:after   *x, *y = *y, *x
 func valSwap(m dsl.Matcher) {
 	m.Match(`$tmp := $y; $y = $x; $x = $tmp`).
+		Where(m["tmp"].Text != m["x"].Text && m["tmp"].Text != m["y"].Text).
 		Report("can re-write as `$y, $x = $x, $y`")
 }
 
